@@ -150,3 +150,15 @@ package sqlcrud
 //@   callverb fmt.Sprintf "row.Scan( %s )" cols.goScanFields
 //@   callverb fmt.Sprintf "\"SELECT %s FROM" cols.sqlColumnNames
 //@   callverb fmt.Sprintf ") RETURNING %s;" cols.sqlColumnNames
+
+// composite columns: the converters write and read one value per field of the struct, ALL fields, in order — the same
+// fields the schema's CREATE TYPE lists (generator/sql.compositeDecl)
+//@ func context.compositeConverters
+//@   props C05
+//@   nosafety
+//@   modifies *
+//@   ensures len(placholders) == len(st.Fields) && len(selectors) == len(st.Fields) && len(scanFields) == len(st.Fields)
+//@   callverb fmt.Sprintf "if len(fields) != %s {" len(st.Fields)
+//@   callverb fmt.Sprintf "fmt.Appendf(nil, \"(%s)\"," strings.Join(placholders, ", ")
+//@   loop st.Fields.1 invariant len(placholders) == len(st.Fields) && len(selectors) == len(st.Fields) && len(scanFields) == len(st.Fields)
+//@   loop st.Fields.1 invariant fresh(placholders) && allocated(placholders) && fresh(selectors) && allocated(selectors) && fresh(scanFields) && allocated(scanFields)
